@@ -17,6 +17,8 @@ PTRef UFLATheory::preprocessAfterSubstitutions(PTRef fla, PreprocessingContext c
         purified = instantiateReadOverStore(logic, purified);
     }
     PTRef noArithmeticEqualities = splitArithmeticEqualities(purified);
+    // Boolean arguments of uninterpreted functions must be known to the E-graph (as in UFTheory)
+    AppearsInUfVisitor(getLogic()).visit(noArithmeticEqualities);
     return noArithmeticEqualities;
 }
 
